@@ -2,4 +2,5 @@
 PROPERTIES = {
     "C01": ["contracts.c01"],
     "C16": ["contracts.c16"],
+    "C09": ["contracts.c09"],
 }
